@@ -29,8 +29,14 @@ def run(cx):
         cls = {c.name.split('::')[-1]: cx.retval(c) for c in cx.facts.closures_of(b.name)}
         cx.ob('ORDER', 'polyline_intersections:ascending', any(match('(unwrap (call f64::partial_cmp (field 0 (param a)) (field 0 (param b))))', v) is not None for v in cls.values()),
               'sorting is ascending in the ray parameter', found=str({k: show(v) for k, v in cls.items()}))
-        cx.ob('ORDER', 'polyline_intersections:dedup-predicate', any(match('(lt (call f64::abs (sub (field 0 (param a)) (field 0 (param b)))) $eps)', v) is not None for v in cls.values()),
-              'duplicates are parameters closer than the tolerance')
+        okd = False
+        for v in cls.values():
+            e = match('(lt (call f64::abs (sub (field 0 (param a)) (field 0 (param b)))) $eps)', v) or match('(le (call f64::abs (sub (field 0 (param a)) (field 0 (param b)))) $eps)', v)
+            if e is not None and e['eps'][0] == 'const' and isinstance(e['eps'][1], float) and 0.0 < e['eps'][1] <= 1e-6:
+                okd = True
+        cx.ob('ORDER', 'polyline_intersections:dedup-predicate', okd,
+              'duplicates are parameters closer than a POSITIVE CONSTANT tolerance (a tolerance that depends on the parameters can vanish - at t = 0 for a relative one - and let an exact duplicate through)',
+              found=str({k: show(v) for k, v in cls.items()}))
         pushes = b.calls('Vec::push')
         ok = len(pushes) == 1
         if ok:
